@@ -238,6 +238,9 @@ func (w *World) SortOf(t types.Type) *Sort {
 		}
 		return SSeq(w.SortOf(u.Elem()))
 	case *types.Array:
+		if b, ok := u.Elem().Underlying().(*types.Basic); ok && (b.Kind() == types.Byte || b.Kind() == types.Uint8) {
+			return SString
+		}
 		return SSeq(w.SortOf(u.Elem()))
 	case *types.Map:
 		s := SRef("map")
